@@ -21,9 +21,11 @@ func (c06) Gen(r *simrt.Rand, idx int, tier string) *Case {
 	g := DefaultGen()
 	g.TieWeights = r.P(0.5)
 	c := &Case{}
-	subs := []string{"balance", "balance", "balance-valued", "print", "checkwrite", "transcode", "weights", "returns", "infer", "import"}
+	subs := []string{"balance", "balance-ties", "balance-valued", "print", "checkwrite", "transcode", "weights", "returns", "infer", "import"}
 	c.Sub = subs[idx%len(subs)]
 	switch c.Sub {
+	case "balance-ties":
+		return genTieCase(r, c, tier)
 	case "infer":
 		return genInferCase(r, c, true)
 	case "import":
@@ -190,4 +192,112 @@ func noteVacuous(sub string, o *Out) {
 		line = "panic: " + o.PanicValue
 	}
 	Extra["vacuous:"+sub+":"+o.Outcome+":"+line]++
+}
+
+
+// genTieCase builds journals in which sibling accounts have exactly equal
+// totals that are reached by different sums of fractional amounts (so that any
+// inexact or order-dependent accumulation of sort weights shows), valued in the
+// booking commodity itself, sorted by weight.
+func genTieCase(r *simrt.Rand, c *Case, tier string) *Case {
+	j := &Journal{}
+	start := anchors[r.Intn(len(anchors))]
+	parent := []string{"Expenses:Home", "Assets:Bank", "Income:Jobs", "Liabilities:Cards"}[r.Intn(4)]
+	nsib := r.Range(2, 4)
+	accs := []string{"Equity:Equity"}
+	twoLevel := r.P(0.5)
+	for i := 0; i < nsib; i++ {
+		a := fmt.Sprintf("%s:%s", parent, []string{"Alpha", "Beta", "Gamma", "Delta"}[i])
+		if twoLevel {
+			// tied parents, each the sum of several children
+			a += ":" + []string{"One", "Two", "Three"}[r.Intn(3)]
+		}
+		accs = append(accs, a)
+	}
+	for _, a := range accs {
+		j.Dirs = append(j.Dirs, Dir{Kind: "open", Date: start, Account: a})
+	}
+	// fractional addends (two decimals), e.g. 10.10 20.20 30.30
+	n := r.Range(3, 6)
+	var parts []Q
+	var total Q
+	for i := 0; i < n; i++ {
+		q := Q(r.Range(1, 9999)) * 100
+		if r.P(0.5) {
+			q = Q(r.Range(1, 99)) * 1010 * 10 // x.10-like values
+		}
+		parts = append(parts, q)
+		total += q
+	}
+	com := comPool[r.Intn(3)]
+	day := 0
+	book := func(acc string, q Q) {
+		day += r.Range(1, 45)
+		j.Dirs = append(j.Dirs, Dir{Kind: "txn", Date: start + Day(day), Desc: "t", QStyle: r.Intn(3), Bookings: []Booking{{Credit: "Equity:Equity", Debit: acc, Qty: q, Com: com}}})
+	}
+	if twoLevel {
+		// re-open: children of each parent
+		base := append([]string{}, accs[1:]...)
+		for _, a := range base {
+			p := a[:strings.LastIndexByte(a, ':')]
+			for _, ch := range []string{"One", "Two", "Three"} {
+				if p+":"+ch != a {
+					j.Dirs = append(j.Dirs, Dir{Kind: "open", Date: start, Account: p + ":" + ch})
+				}
+			}
+		}
+	}
+	childOf := func(a string, k int) string {
+		if !twoLevel {
+			return a
+		}
+		return a[:strings.LastIndexByte(a, ':')] + ":" + []string{"One", "Two", "Three"}[k%3]
+	}
+	_ = childOf
+	for i := 1; i <= nsib; i++ {
+		if twoLevel {
+			// each parent gets the same addends, distributed over its children in another order
+			for x, k := range r.Perm(n) {
+				book(childOf(accs[i], x+i), parts[k])
+			}
+			continue
+		}
+		switch (i + r.Intn(3)) % 3 {
+		case 0: // the same addends in another order
+			for _, k := range r.Perm(n) {
+				book(accs[i], parts[k])
+			}
+		case 1: // one booking of the total
+			book(accs[i], total)
+		default: // another partition of the same total
+			rest := total
+			for k := 0; k < n-1; k++ {
+				q := Q(r.Range(1, int(rest/2/100)+1)) * 100
+				book(accs[i], q)
+				rest -= q
+			}
+			book(accs[i], rest)
+		}
+	}
+	c.J = j
+	c.L = RandLayout(r, j, 4)
+	c.Cmd = "balance"
+	c.Today = (start + 900).String()
+	c.Args = []string{"--color=false", "--digits", "2", "-v", com, "--to", (start + Day(day+1)).String()}
+	if r.P(0.8) {
+		c.Args = append(c.Args, []string{"--months", "--weeks", "--quarters"}[r.Intn(3)])
+	}
+	nn := 8
+	if tier == "thorough" {
+		nn = 12
+	}
+	c.Scheds = []Sched{CanonSched()}
+	for i := 1; i < nn; i++ {
+		s := RandSched(r)
+		if s.MapMode == 0 {
+			s.MapMode = 3
+		}
+		c.Scheds = append(c.Scheds, s)
+	}
+	return c
 }
